@@ -1,7 +1,7 @@
 //! C26 — incremental (LSP) compilation agrees with a fresh compilation.
 //!
-//! E-bfs over edit histories of a three-module std-less library (`lib.sw`, `a.sw`, `b.sw`):
-//! every history of ≤ N edits from a 12-entry alphabet (append/delete a function in each module,
+//! E-bfs over edit histories of a std-less library (`lib.sw`, `a.sw`, `b.sw`, and `c.sw` which an
+//! edit attaches later): every history of ≤ N edits from a 16-entry alphabet (append/delete a function in each module,
 //! rename a function used across modules, introduce/fix a syntax error, introduce/fix a type
 //! error, change a struct field type used in another module, add a `use`). Each history is
 //! driven through the REAL server (real didOpen/didChange handlers, real compilation thread,
@@ -37,6 +37,9 @@ struct Texts {
     lib: String,
     a: String,
     b: String,
+    /// `c.sw` exists on disk from the start but is only attached to the module tree by an edit
+    #[serde(default)]
+    c: String,
 }
 
 fn initial() -> Texts {
@@ -44,11 +47,15 @@ fn initial() -> Texts {
         lib: "library;\n\nmod a;\nmod b;\n\nuse a::fa;\nuse a::P;\n\npub fn top() -> u64 {\n    let p = P { x: 1, y: 2 };\n    let q = b::fb();\n    fa(p.x)\n}\n".into(),
         a: "library;\n\npub struct P {\n    pub x: u64,\n    pub y: u64,\n}\n\npub fn fa(v: u64) -> u64 {\n    v\n}\n".into(),
         b: "library;\n\npub fn fb() -> u64 {\n    let unused_b = 3;\n    7\n}\n".into(),
+        c: "library;\n\npub fn fc() -> u64 {\n    5\n}\n".into(),
     }
 }
 
-const EDITS: [&str; 12] = [
+const EDITS: [&str; 16] = [
     "lib+fn", "a+fn", "b+fn", "a-fn", "a:rename-fa", "b:break-syntax", "b:fix-syntax", "lib:break-type", "lib:fix-type", "a:field-type", "lib+use", "b:edit-body",
+    // the module graph itself changes: a module attached (detached) after the first compilation,
+    // and edits of that late module
+    "lib+mod-c", "lib-mod-c", "c:ret-bool", "c:ret-u64",
 ];
 
 /// Apply edit `e`; returns (file changed, new texts) or None when the edit does not apply.
@@ -128,6 +135,36 @@ fn apply(t: &Texts, e: usize, step: usize) -> Option<(usize, Texts)> {
             n.b = n.b.replacen("    7\n", "    8\n", 1);
             2
         }
+        "lib+mod-c" => {
+            if n.lib.contains("mod c;") {
+                return None;
+            }
+            n.lib = n.lib.replacen("mod b;\n", "mod b;\nmod c;\n", 1);
+            n.lib.push_str("\npub fn uses_c() -> u64 {\n    c::fc()\n}\n");
+            0
+        }
+        "lib-mod-c" => {
+            if !n.lib.contains("mod c;") {
+                return None;
+            }
+            n.lib = n.lib.replacen("mod b;\nmod c;\n", "mod b;\n", 1);
+            n.lib = n.lib.replacen("\npub fn uses_c() -> u64 {\n    c::fc()\n}\n", "", 1);
+            0
+        }
+        "c:ret-bool" => {
+            if !n.c.contains("pub fn fc() -> u64 {\n    5\n") {
+                return None;
+            }
+            n.c = n.c.replacen("pub fn fc() -> u64 {\n    5\n", "pub fn fc() -> bool {\n    true\n", 1);
+            3
+        }
+        "c:ret-u64" => {
+            if !n.c.contains("pub fn fc() -> bool {\n    true\n") {
+                return None;
+            }
+            n.c = n.c.replacen("pub fn fc() -> bool {\n    true\n", "pub fn fc() -> u64 {\n    5\n", 1);
+            3
+        }
         _ => unreachable!(),
     };
     if n == *t {
@@ -137,11 +174,11 @@ fn apply(t: &Texts, e: usize, step: usize) -> Option<(usize, Texts)> {
 }
 
 fn file_name(i: usize) -> &'static str {
-    ["lib.sw", "a.sw", "b.sw"][i]
+    ["lib.sw", "a.sw", "b.sw", "c.sw"][i]
 }
 
 fn text_of(t: &Texts, i: usize) -> &String {
-    [&t.lib, &t.a, &t.b][i]
+    [&t.lib, &t.a, &t.b, &t.c][i]
 }
 
 // ---------------------------------------------------------------------------------------------
@@ -218,13 +255,13 @@ fn child_hist(args: &[String]) -> i32 {
         "[project]\nauthors = [\"verif\"]\nentry = \"lib.sw\"\nlicense = \"Apache-2.0\"\nname = \"c26proj\"\nimplicit-std = false\n\n[dependencies]\n",
     )
     .unwrap();
-    for i in 0..3 {
+    for i in 0..4 {
         std::fs::write(proj.join("src").join(file_name(i)), text_of(&job.start, i)).unwrap();
     }
     std::env::set_var("HOME", &work);
     std::fs::create_dir_all(work.join("tmp")).unwrap();
     std::env::set_var("TMPDIR", work.join("tmp"));
-    let uris: Vec<lsp_types::Url> = (0..3).map(|i| lsp_types::Url::from_file_path(proj.join("src").join(file_name(i))).unwrap()).collect();
+    let uris: Vec<lsp_types::Url> = (0..4).map(|i| lsp_types::Url::from_file_path(proj.join("src").join(file_name(i))).unwrap()).collect();
 
     // events: open lib; for each edit: (open the file if never opened) + change
     #[derive(Clone)]
@@ -233,9 +270,9 @@ fn child_hist(args: &[String]) -> i32 {
         Change(usize, String, i32),
     }
     let mut events: Vec<(E, bool)> = vec![(E::Open(0, job.start.lib.clone()), true)]; // (event, observe after it)
-    let mut opened = [true, false, false];
-    let mut versions = [1i32, 1, 1];
-    let mut cur = [job.start.lib.clone(), job.start.a.clone(), job.start.b.clone()];
+    let mut opened = [true, false, false, false];
+    let mut versions = [1i32, 1, 1, 1];
+    let mut cur = [job.start.lib.clone(), job.start.a.clone(), job.start.b.clone(), job.start.c.clone()];
     for (f, text) in &job.edits {
         if !opened[*f] {
             opened[*f] = true;
@@ -374,13 +411,23 @@ fn run(a: &vhcore::Args) -> i32 {
     let thorough = a.tier == vhcore::Tier::Thorough;
     let work = vhcore::work_dir("C26");
     let alphabet: Vec<usize> = (0..EDITS.len()).collect();
+    // quick: every history of <= 2 edits over the whole alphabet; thorough adds every history of
+    // <= 3 edits over the 12 edits that keep the module graph fixed (16^3 is out of reach here)
     let depth = if thorough { 3 } else { 2 };
-    let all = histories(depth, &alphabet);
+    let mut all = histories(2, &alphabet);
+    if thorough {
+        let fixed_graph: Vec<usize> = (0..12).collect();
+        for h in histories(3, &fixed_graph) {
+            if !all.iter().any(|(h2, _)| *h2 == h.0) {
+                all.push(h);
+            }
+        }
+    }
     // only maximal histories need to run (every prefix is observed on the way); a history that
     // cannot be extended at depth < max is maximal too
     let maximal: Vec<&(Vec<usize>, Vec<(usize, Texts)>)> = all
         .iter()
-        .filter(|(h, _)| h.len() == depth || !all.iter().any(|(h2, _)| h2.len() == h.len() + 1 && h2.starts_with(h)))
+        .filter(|(h, _)| !all.iter().any(|(h2, _)| h2.len() == h.len() + 1 && h2.starts_with(h)))
         .collect();
     // fresh references, memoised by text triple
     let mut distinct: BTreeSet<Texts> = BTreeSet::new();
@@ -455,7 +502,7 @@ fn run(a: &vhcore::Args) -> i32 {
     rep.set("histories", all.len() as u64);
     rep.set("distinct_text_states", distinct.len() as u64);
     rep.set("depth", depth as u64);
-    rep.set("rule", "all edit histories up to the depth over the 12-edit alphabet (inapplicable edits skipped), each run on the real server under one fixed race-free schedule; after every edit: (diagnostics per file with range/severity/message, token-map keys with kind) == those of a fresh server opened on the same texts; states = distinct (history, observation); distinct_nontrivial = distinct observations");
+    rep.set("rule", "all edit histories of <= 2 edits over the 16-edit alphabet, thorough: plus all of <= 3 edits over the 12 fixed-graph edits (incl. attaching/detaching a module after the first compilation and editing it) (inapplicable edits skipped), each run on the real server under one fixed race-free schedule; after every edit: (diagnostics per file with range/severity/message, token-map keys with kind) == those of a fresh server opened on the same texts; states = distinct (history, observation); distinct_nontrivial = distinct observations");
     rep.set("exhaustive", true);
     for (h, _) in all.iter().step_by((all.len() / 6).max(1)) {
         rep.sample(json!({"history": h.iter().map(|e| EDITS[*e]).collect::<Vec<_>>()}));
